@@ -58,7 +58,7 @@ theorem errorsOf_eq_nil (outs : List Outcome) : errorsOf outs = [] ↔ ∀ o ∈
   | nil => simp [errorsOf]
   | cons o rest ih =>
     cases o with
-    | none => simpa [errorsOf] using ih
+    | none => simp [errorsOf, ih]
     | some e => simp [errorsOf]
 
 /-! ### `dropEmpty` keeps the leaf function (on well-formed values) -/
